@@ -106,10 +106,14 @@ def norm_attr_name(x: str) -> str:
 LAYOUT_TEXT_ALPHA = "abcxyz019_.,:!\xe9"
 
 
-def layout_leaf(newlines: bool = False, meta: bool = True, spaces: bool = False):
+def layout_leaf(newlines: bool = False, meta: bool = True, spaces: bool = False, blank=()):
+    """blank: strings (e.g. "", " ", "\t") generated as *unnumbered* text / HTML leaves (empty and whitespace-only content)"""
     alpha = LAYOUT_TEXT_ALPHA + ("\n" if newlines else "") + (" " if spaces else "")
     txt = st.text(alphabet=alpha, max_size=5)
-    leaves = [
+    leaves = []
+    if blank:
+        leaves.append(st.builds(lambda s, h: {"k": "html" if h else "text", "s": s, "blank": True}, st.sampled_from(list(blank)), st.sampled_from([False, False, True])))
+    leaves += [
         st.builds(lambda s: {"k": "text", "s": s}, txt),
         st.builds(lambda s: {"k": "text", "s": s}, txt),
         st.builds(lambda s: {"k": "html", "s": "<i>" + s + "</i>"}, txt),
@@ -161,18 +165,18 @@ def layout_tag(children, max_kids: int = 5):
     )
 
 
-def layout_tree(newlines: bool = False, meta: bool = True, depth: int = 3, spaces: bool = False, max_kids: int = 4):
+def layout_tree(newlines: bool = False, meta: bool = True, depth: int = 3, spaces: bool = False, max_kids: int = 4, blank=()):
     """Explicit levels instead of st.recursive, so that nested shapes are frequent."""
-    leaf = layout_leaf(newlines, meta, spaces)
+    leaf = layout_leaf(newlines, meta, spaces, blank)
     node = leaf
     for _ in range(depth):
         node = st.one_of(leaf, layout_tag(node, max_kids), layout_tag(node, max_kids))
     return layout_tag(node, max_kids)
 
 
-def layout_forest(newlines: bool = False, meta: bool = True, max_roots: int = 3, spaces: bool = False, depth: int = 2):
+def layout_forest(newlines: bool = False, meta: bool = True, max_roots: int = 3, spaces: bool = False, depth: int = 2, blank=()):
     return st.lists(
-        st.one_of(layout_tree(newlines, meta, depth, spaces), layout_tree(newlines, meta, depth, spaces), layout_leaf(newlines, meta, spaces)),
+        st.one_of(layout_tree(newlines, meta, depth, spaces, blank=blank), layout_tree(newlines, meta, depth, spaces, blank=blank), layout_leaf(newlines, meta, spaces, blank)),
         min_size=0,
         max_size=max_roots,
     )
@@ -198,6 +202,8 @@ def number(nodes, counter=None):
             counter[0] += 1
             kids = number(n["kids"], counter)
             out.append(dict(n, attrs=[["data-n", str(i)]] + list(n.get("attrs", [])), kids=kids, id=i))
+        elif n.get("blank"):
+            out.append(n)
         elif k == "text":
             i = counter[0]
             counter[0] += 1
